@@ -240,3 +240,130 @@ Fixpoint to_cnf_p (fuel : nat) (t : cf) : res (cf * core * core) :=
       | CBot _ => Err
       end
   end.
+
+(* ------------------------------------------------------------------------------------------ *)
+(** * match_single / instantiate on expanded patterns, imp_trans_match1/2 *)
+
+Fixpoint kassoc (i : N) (s : list (N * core)) : option core :=
+  match s with
+  | [] => None
+  | (k, v) :: t => if N.eqb k i then Some v else kassoc i t
+  end.
+
+(** match_single(pattern, instance, extend): metavariables of [pat] are bound, everything else must agree *)
+Fixpoint kmatch (pat inst : core) (s : list (N * core)) : option (list (N * core)) :=
+  match pat with
+  | KVar i =>
+      match kassoc i s with
+      | Some v => if core_eqb v inst then Some s else None
+      | None => Some (s ++ [(i, inst)])
+      end
+  | KBot => match inst with KBot => Some s | _ => None end
+  | KImp a b =>
+      match inst with
+      | KImp a' b' => match kmatch a a' s with Some s' => kmatch b b' s' | None => None end
+      | _ => None
+      end
+  end.
+
+(** Pattern.instantiate (simultaneous) *)
+Fixpoint ksubst (s : list (N * core)) (p : core) : core :=
+  match p with
+  | KBot => KBot
+  | KVar i => match kassoc i s with Some v => v | None => p end
+  | KImp a b => KImp (ksubst s a) (ksubst s b)
+  end.
+
+(** imp_trans_match1(h1, h2): h1 is instantiated so that its consequent becomes h2's antecedent *)
+Definition s_imp_trans_match1 (h1 h2 : core) : option core :=
+  match h1, h2 with
+  | KImp _ b, KImp c _ => let? s := kmatch b c [] in s_imp_transitivity (ksubst s h1) h2
+  | _, _ => None
+  end.
+(** imp_trans_match2(h1, h2): h2 is instantiated so that its antecedent becomes h1's consequent *)
+Definition s_imp_trans_match2 (h1 h2 : core) : option core :=
+  match h1, h2 with
+  | KImp _ b, KImp c _ => let? s := kmatch c b [] in s_imp_transitivity h1 (ksubst s h2)
+  | _, _ => None
+  end.
+
+Definition kv (i : N) : core := KVar i.
+Definition s_and_assoc_r : core := KImp (k_and (k_and (kv 0) (kv 1)) (kv 2)) (k_and (kv 0) (k_and (kv 1) (kv 2))).
+Definition s_and_assoc_l : core := KImp (k_and (kv 0) (k_and (kv 1) (kv 2))) (k_and (k_and (kv 0) (kv 1)) (kv 2)).
+Definition s_or_assoc_r : core := KImp (k_or (k_or (kv 0) (kv 1)) (kv 2)) (k_or (kv 0) (k_or (kv 1) (kv 2))).
+Definition s_or_assoc_l : core := KImp (k_or (kv 0) (k_or (kv 1) (kv 2))) (k_or (k_or (kv 0) (kv 1)) (kv 2)).
+Definition s_imim_and_r (p h : core) : option core :=                    (* b->c |- p/\b -> p/\c *)
+  match h with KImp b c => Some (KImp (k_and p b) (k_and p c)) | _ => None end.
+Definition s_imim_or_r (p h : core) : option core :=                     (* b->c |- p\/b -> p\/c *)
+  match h with KImp b c => Some (KImp (k_or p b) (k_or p c)) | _ => None end.
+
+(** the `for i in range(0, l - 2)` loop of to_clauses: state after [k] iterations *)
+Fixpoint shift_iter (ar al : core) (lift : core -> core -> option core) (k : nat) : option (core * core) :=
+  match k with
+  | O => Some (ar, al)
+  | S k' =>
+      let? (sr, sl) := shift_iter ar al lift k' in
+      let v := kv (N.of_nat k' + 3) in
+      let? x := lift v sr in
+      let? sr' := s_imp_trans_match1 ar x in
+      let? y := lift v sl in
+      let? sl' := s_imp_trans_match2 y al in
+      Some (sr', sl')
+  end.
+
+(** id_to_metavar, clause_to_pattern, clause_conjunctionto_pattern (expanded) *)
+Definition lit_core (x : Z) : core :=
+  match x with
+  | Z0 => KBot                                   (* assert id != 0 *)
+  | Zpos p => KVar (Pos.pred_N p)
+  | Zneg p => k_neg (KVar (Pos.pred_N p))
+  end.
+Fixpoint fold1 (op : core -> core -> core) (l : list core) : core :=
+  match l with
+  | [] => KBot
+  | [x] => x
+  | x :: t => op x (fold1 op t)
+  end.
+Definition clause_core (c : list Z) : core :=
+  match c with [] => KBot | _ => fold1 k_or (map lit_core c) end.
+Definition cls_core (cs : list (list Z)) : core :=
+  match cs with [] => k_top | _ => fold1 k_and (map clause_core cs) end.
+
+(** to_clauses with the conclusions of its two proofs *)
+Fixpoint to_clauses_p (t : cf) : option (list (list Z) * core * core) :=
+  match t with
+  | CVar n i => let pat := cf_core t in Some ([[lit_of n i]], s_imp_refl pat, s_imp_refl pat)
+  | CAnd _ l r =>
+      let? (cl, l1, l2) := to_clauses_p l in
+      let? (cr, r1, r2) := to_clauses_p r in
+      let? ret1 := s_imim_and l1 r1 in
+      let? ret2 := s_imim_and l2 r2 in
+      match length cl with
+      | O => None
+      | S O => Some (cl ++ cr, ret1, ret2)
+      | S (S k) =>
+          let? (sr, sl) := shift_iter s_and_assoc_r s_and_assoc_l s_imim_and_r k in
+          let? ret1' := s_imp_trans_match2 ret1 sr in
+          let? ret2' := s_imp_trans_match1 sl ret2 in
+          Some (cl ++ cr, ret1', ret2')
+      end
+  | COr _ l r =>
+      let? (cl, l1, l2) := to_clauses_p l in
+      let? (cr, r1, r2) := to_clauses_p r in
+      let? ret1 := s_imim_or l1 r1 in
+      let? ret2 := s_imim_or l2 r2 in
+      match cl, cr with
+      | [a], [b] =>
+          match length a with
+          | O => None
+          | S O => Some ([a ++ b], ret1, ret2)
+          | S (S k) =>
+              let? (sr, sl) := shift_iter s_or_assoc_r s_or_assoc_l s_imim_or_r k in
+              let? ret1' := s_imp_trans_match2 ret1 sr in
+              let? ret2' := s_imp_trans_match1 sl ret2 in
+              Some ([a ++ b], ret1', ret2')
+          end
+      | _, _ => None
+      end
+  | CBot _ => None
+  end.
